@@ -65,6 +65,31 @@ pub fn pos_unchanged() {
     pos(usize::MAX);
 }
 
+/// Number of knob slots.
+pub const KNOB_COUNT: usize = 8;
+
+thread_local! {
+    static KNOBS: RefCell<[Option<usize>; KNOB_COUNT]> = const { RefCell::new([None; KNOB_COUNT]) };
+}
+
+/// Overrides (or, with `None`, restores) tuning knob `id` on the current thread.
+/// Knob 0: length of the text decoder's buffer. Knob 1: non-zero disables the text decoder's
+/// ASCII/UTF-8 fast path.
+pub fn set_knob(id: usize, value: Option<usize>) {
+    KNOBS.with(|k| {
+        if let Some(slot) = k.borrow_mut().get_mut(id) {
+            *slot = value;
+        }
+    });
+}
+
+/// Current value of tuning knob `id` (`default` unless overridden on this thread).
+#[inline]
+#[must_use]
+pub fn knob(id: usize, default: usize) -> usize {
+    KNOBS.with(|k| k.borrow().get(id).copied().flatten().unwrap_or(default))
+}
+
 /// Bumps probe `id`.
 #[inline]
 pub fn hit(id: usize) {
